@@ -12,7 +12,7 @@ fn c05_cfg(tier: Tier, index: u64) -> HistCfg {
     w.sync = 3;
     w.reopen = 2;
     w.bulk = 2;
-    HistCfg {
+    let mut c = HistCfg {
         kts: Kt::ALL.to_vec(),
         key: if index % 11 == 0 { KeyProfile::Long } else { KeyProfile::Medium },
         n_keys: if index % 4 == 0 { 20..=200 } else { 2..=40 },
@@ -35,7 +35,11 @@ fn c05_cfg(tier: Tier, index: u64) -> HistCfg {
             ..Default::default()
         },
         target_pct: 30,
+    };
+    if index % 50 == 13 {
+        make_dense(&mut c, tier == Tier::Thorough);
     }
+    c
 }
 
 pub fn c05() -> HistProp {
@@ -268,7 +272,7 @@ fn c04_cfg(tier: Tier, index: u64) -> HistCfg {
     w.iter = 12;
     w.reopen = 1;
     let emptied = index % 6 == 0;
-    HistCfg {
+    let mut c = HistCfg {
         kts: if index % 3 == 0 { Kt::ALL.to_vec() } else { vec![Kt::Bytes, Kt::String] },
         key: KeyProfile::Short,
         n_keys: if emptied { 1..=6 } else if index % 4 == 0 { 30..=300 } else { 1..=40 },
@@ -286,7 +290,12 @@ fn c04_cfg(tier: Tier, index: u64) -> HistCfg {
         },
         obs: Obs::default(),
         target_pct: 50,
+    };
+    if index % 40 == 13 {
+        make_dense(&mut c, tier == Tier::Thorough);
+        c.ops.w.iter = 3;
     }
+    c
 }
 
 pub fn c04() -> HistProp {
